@@ -58,9 +58,11 @@ def shard_main(args):
     ctx = Ctx(args.prop, args.tier, args.shard, args.shards, env.seed_int(), findings, deadline)
     res = {'ok': True}
     try:
-        if args.shard == 0:
-            # regression tier: committed replay files must hold on the tree; known-finding probes
-            for path in sorted(glob.glob(os.path.join(env.VERIF_DIR, 'replays', args.prop, '*.json'))):
+        # regression tier: committed replay files must hold on the tree (dealt round-robin to the shards, the
+        # known-finding probes run on the last shard)
+        paths = sorted(glob.glob(os.path.join(env.VERIF_DIR, 'replays', args.prop, '*.json')))
+        if True:
+            for path in [p for k, p in enumerate(paths) if k % args.shards == args.shard]:
                 with open(path) as f:
                     rep = json.load(f)
                 if rep.get('kind') == 'finding-probe':
@@ -71,7 +73,7 @@ def shard_main(args):
                     mod.replay(ctx, rep['case'])
                 except Discrepancy as d:
                     ctx.violation('replay:' + os.path.basename(path) + ':' + d.bucket, d.message, rep['case'])
-            if hasattr(mod, 'probes'):
+            if hasattr(mod, 'probes') and args.shard == args.shards - 1:
                 mod.probes(ctx)
         mod.run(ctx)
     except Discrepancy as d:
